@@ -226,7 +226,7 @@ type kase struct {
 	// scope part: the program texts evaluated, in order (location -> source)
 	Programs []scopeProg `json:"programs,omitempty"`
 	Targets  []string    `json:"targets,omitempty"`
-	Step    int      `json:"step,omitempty"`
+	Step     int         `json:"step,omitempty"`
 }
 
 // ---------------------------------------------------------------------------
@@ -434,6 +434,7 @@ type worker struct {
 	progs   map[string]lisp.Program // loading files, parsed once per (location, content)
 	hlocs   []string                // history part: the locations a hist.lisp loader asks for
 	hasked  []int                   // history part: len(asked) when each nested operation started
+	sbase   map[string]string       // scope part: outcome of a single top-level load, per (configuration, file, primitive, target)
 	hstates map[string]struct{}     // history part: canonical states seen by this worker
 
 	// local counters, flushed at the end
@@ -458,7 +459,7 @@ func (b bdef) Formals() *lisp.LVal                             { return b.formal
 func (b bdef) Eval(env *lisp.LEnv, args *lisp.LVal) *lisp.LVal { return b.fn(env, args) }
 
 func newWorker(sb *sandbox) *worker {
-	w := &worker{sb: sb, outcomes: map[outKey]int64{}, info: map[string]int64{}, hstates: map[string]struct{}{}, progs: map[string]lisp.Program{}}
+	w := &worker{sb: sb, outcomes: map[outKey]int64{}, info: map[string]int64{}, hstates: map[string]struct{}{}, sbase: map[string]string{}, progs: map[string]lisp.Program{}}
 	w.dirFS = os.DirFS(sb.B + "/root")
 	w.freshEnv()
 	return w
